@@ -13,7 +13,7 @@ import z3
 
 from . import loader, contract as C
 from .values import (Sym, SV, SList, SSet, SOpt, FuncRef, ModuleRef, ClassRef, Opaque, Unsupported, TInt, TBool, TStr,
-                     TNet, TNone, TObj, TList, TSet, TOpt, TTuple, Net, fresh, fresh_name, type_constraints, type_of,
+                     TNet, TNone, TObj, TList, TSet, TOpt, TTuple, TDict, Net, fresh, fresh_name, type_constraints, type_of,
                      to_term, wrap, sort_of, is_concrete, list_from_concrete, default_term)
 
 EXC_PARENTS = {
@@ -123,6 +123,10 @@ class Ctx:
     def logged(self):
         return self.st.log
 
+    def entry(self, name):
+        """value of a parameter/variable at function entry (for loop invariants that relate to the initial value)"""
+        return self.eng.entry_state.env[name]
+
 
 class Vars:
     """current values of the local variables as seen by invariants (concrete lists are shown as symbolic lists)"""
@@ -136,6 +140,11 @@ class Vars:
             v = self._env[name]
         except KeyError:
             raise AttributeError(name)
+        if isinstance(v, dict) and not v and isinstance(Vars.types.get(name), TDict):
+            ty = Vars.types[name]
+            from .values import SDict, default_term
+            ks = sort_of(ty.key)
+            return SDict(ty.key, ty.val, z3.K(ks, z3.BoolVal(False)), z3.K(ks, default_term(ty.val)))
         if isinstance(v, list) and all(not isinstance(x, (list, tuple, dict)) for x in v):
             ty = Vars.types.get(name)
             if v or ty is not None:
@@ -181,7 +190,13 @@ class Engine:
     def emit_with_hints(self, kind, label, st, goal, hints, note=""):
         """prove each hint from the path condition and the earlier hints, then the goal from all of them"""
         extra, deps = [], []
+        from .spec import Instance
         for n_, h in enumerate(hints):
+            if isinstance(h, Instance):
+                if any(z3.eq(h.forall, f) for f in st.pc):
+                    extra.append(h.formula)      # instance of a hypothesis: sound without a proof of its own
+                    continue
+                h = h.formula
             if isinstance(h, SV):
                 h = h.t
             ob = self.emit("hint", f"{label}.h{n_}", st, h, hyps_extra=tuple(extra), split=False, depends=tuple(deps))
